@@ -156,7 +156,11 @@ HMutate == Len(hist) = plan.mut + 4 * nmut /\ UNCHANGED plan /\ \E p \in Peer, k
     \/ \E s \in SeqNum : ConcurrentDelete(p, k, s) /\ hist' = Append(hist, MutObs(p, k, "delete", s))
     \/ ConcurrentAppend(p, k) /\ hist' = Append(hist, MutObs(p, k, "append", MaxOrNone(store[p][k]) + 1))
 
-HCrash == Len(hist) = plan.crash /\ UNCHANGED plan /\ \E p \in Peer : Crash(p) /\ hist' = Append(hist, [p |-> p, act |-> "Crash"])
+\* (not between the last event of a session and its return: SyncElse and SinkFail have no await
+\* of their own, the real session cannot be stopped there)
+HCrash == Len(hist) = plan.crash /\ UNCHANGED plan
+          /\ \E p \in Peer : ~G_SyncElse(p) /\ ~G_SinkFail(p) /\ Crash(p)
+                              /\ hist' = Append(hist, [p |-> p, act |-> "Crash"])
 
 ---------------------------------------------------------------------------
 (* Export specifications (no Terminated stuttering: a behaviour ends where  *)
